@@ -224,11 +224,12 @@ def pick_alphabet(env: Any, keys: Sequence[int], threshold: int, limit: int = 12
 # side-by-side oracle (bare env, batched under jit)
 # ---------------------------------------------------------------------------------------------
 class Bare:
-    def __init__(self, env: Any, actions: np.ndarray):
+    def __init__(self, env: Any, actions: np.ndarray, buckets: Tuple[int, int] = (16, 128)):
         import jax
         import jax.numpy as jnp
 
         self.env = env
+        self.buckets = buckets  # batch sizes env.reset is compiled for
         self.A = jnp.asarray(actions)
         self._step = jax.jit(jax.vmap(lambda s, A: jax.vmap(lambda a: env.step(s, a))(A), in_axes=(0, None)))
         self._reset = jax.jit(jax.vmap(env.reset))
@@ -256,10 +257,11 @@ class Bare:
         from mc.engine import t_concat, t_index, to_np
 
         n = len(keys)
+        small, big = self.buckets
         outs = []
-        for c0 in range(0, n, 2048):
-            k = keys[c0:c0 + 2048]
-            size = _pad_size(len(k), 2048)
+        for c0 in range(0, n, big):
+            k = keys[c0:c0 + big]
+            size = small if len(k) <= small else big
             kk = np.concatenate([k, np.repeat(k[:1], size - len(k), axis=0)], axis=0) if size > len(k) else k
             s, ts = self._reset(jnp.asarray(kk))
             outs.append(t_index(to_np((s, ts)), slice(0, len(k))))
@@ -577,7 +579,7 @@ def check_path(env: Any, b: bool, seed_key: int, actions: Sequence[Any], eager: 
     exp0 = parts(e0, t0)
     exp0["extras"] = expected_extras(t0.extras, t0.observation, b)
     cmp(parts(s, ts), exp0, "reset", ".reset:")
-    out = [to_np((s, ts))]
+    out = [to_np(jax.tree_util.tree_map(jnp.asarray, (s, ts)))]
     hist = [np.asarray(key).tobytes()]
     for n, a in enumerate(actions):
         a = jnp.asarray(np.asarray(a, dtype=dt))
@@ -592,12 +594,12 @@ def check_path(env: Any, b: bool, seed_key: int, actions: Sequence[Any], eager: 
             used = None
             for k in (k0, k1):
                 F_s, F_t = ereset(k)
-                if not leaf_diff(to_np(s2), to_np(F_s)):
+                if not leaf_diff(to_np(jax.tree_util.tree_map(jnp.asarray, s2)), to_np(F_s)):
                     used = k
                     break
             if used is None:
                 U_s, _ = ereset(e2.key)
-                if not leaf_diff(to_np(s2), to_np(U_s)):
+                if not leaf_diff(to_np(jax.tree_util.tree_map(jnp.asarray, s2)), to_np(U_s)):
                     sigs.append(f"{comp}.step:terminal:state-is-reset-of-the-unsplit-terminal-key")
                 else:
                     sigs.append(f"{comp}.step:terminal:state-is-not-a-reset-from-a-split-of-the-terminal-key")
@@ -617,7 +619,7 @@ def check_path(env: Any, b: bool, seed_key: int, actions: Sequence[Any], eager: 
                   f"W.step_type={int(ts2.step_type)} reward={np.asarray(ts2.reward).tolist()} "
                   f"auto_resets_so_far={len(hist) - 1}")
         s, ts = s2, ts2
-        out.append(to_np((s, ts)))
+        out.append(to_np(jax.tree_util.tree_map(jnp.asarray, (s, ts))))
     return sigs, out
 
 
@@ -633,8 +635,9 @@ def _jitted(env: Any) -> Tuple[Any, Any]:
 
 
 class Modes:
-    """jit per call vs jit(vmap) over a batch of different paths vs jit(scan) along each path
-    (vs the eager trajectory of path 0 when given); compiled once per (env, setting)."""
+    """jit(lax.scan(W.step)) along each path (the reference trajectory) vs jit(vmap(W.step)) over a batch
+    of 2-3 different paths (vs the plain eager trajectory of path 0 when given); compiled once per
+    (env, setting)."""
 
     def __init__(self, env: Any, b: bool):
         import jax
@@ -644,8 +647,8 @@ class Modes:
         self.env, self.b = env, b
         W = self.W = AutoResetWrapper(env, next_obs_in_extras=b)
         self.dt = np.asarray(env.action_spec.generate_value()).dtype
-        self.jstep, self.jreset = jax.jit(W.step), jax.jit(W.reset)
-        self.vreset, self.vstep = jax.jit(jax.vmap(W.reset)), jax.jit(jax.vmap(W.step))
+        self.jreset = jax.jit(W.reset)
+        self.vstep = jax.jit(jax.vmap(W.step))
 
         def roll(s0: Any, aa: Any) -> Any:
             def body(s: Any, a: Any) -> Any:
@@ -661,48 +664,40 @@ class Modes:
         import jax
         import jax.numpy as jnp
 
-        from mc.engine import leaf_diff, t_index, to_np
+        from mc.engine import leaf_diff, t_index, tmap, to_np
 
         P, D = len(paths), len(paths[0])
         acts = jnp.asarray(np.asarray(paths, dtype=self.dt))  # [P, D, ...]
-        keys = jnp.stack([jax.random.PRNGKey(int(k)) for k in seeds])
+        keys = [jax.random.PRNGKey(int(k)) for k in seeds]
         fails: List[str] = []
         ref: List[List[Any]] = []
-        for p in range(P):  # per-call jit
-            s, ts = self.jreset(keys[p])
-            traj = [to_np((s, ts))]
-            for t in range(D):
-                s, ts = self.jstep(s, acts[p, t])
-                traj.append(to_np((s, ts)))
-            ref.append(traj)
-        if eager_ref is not None:
-            for t in range(D + 1):
-                d = leaf_diff(eager_ref[t], ref[0][t])
-                if d:
-                    fails.append(f"eager-vs-jit t={t}: {d[:3]}")
-                    break
-        S, TS = self.vreset(keys)  # vmap over the batch of different paths
-        for t in range(D + 1):
-            got = to_np((S, TS))
-            for p in range(P):
-                d = leaf_diff(t_index(got, p), ref[p][t])
-                if d:
-                    fails.append(f"vmap-vs-jit path={p} t={t}: {d[:3]}")
-            if fails or t == D:
-                break
-            S, TS = self.vstep(S, acts[:, t])
+        roots = []
         for p in range(P):  # scan along each path
-            s0, _ = self.jreset(keys[p])
+            s0, t0 = self.jreset(keys[p])
+            roots.append((s0, t0))
             sD, ys = self.jroll(s0, acts[p])
             ys, sD = to_np(ys), to_np(sD)
-            for t in range(D):
-                d = leaf_diff(t_index(ys, t), ref[p][t + 1])
-                if d:
-                    fails.append(f"scan-vs-jit path={p} t={t + 1}: {d[:3]}")
-                    break
-            d = leaf_diff(sD, ref[p][D][0])
+            traj = [to_np((s0, t0))] + [t_index(ys, t) for t in range(D)]
+            d = leaf_diff(sD, traj[D][0])
             if d:
-                fails.append(f"scan-carry-vs-jit path={p}: {d[:3]}")
+                fails.append(f"scan-carry-vs-scan-output path={p}: {d[:3]}")
+            ref.append(traj)
+        if eager_ref is not None:
+            for t in range(len(eager_ref)):
+                d = leaf_diff(eager_ref[t], ref[0][t])
+                if d:
+                    fails.append(f"eager-vs-scan t={t}: {d[:3]}")
+                    break
+        S, TS = tmap(lambda *xs: jnp.stack(xs), *roots)  # vmap over the batch of different paths
+        for t in range(D):
+            S, TS = self.vstep(S, acts[:, t])
+            got = to_np((S, TS))
+            for p in range(P):
+                d = leaf_diff(t_index(got, p), ref[p][t + 1])
+                if d:
+                    fails.append(f"vmap-vs-scan path={p} t={t + 1}: {d[:3]}")
+            if fails:
+                break
         return fails
 
 
@@ -726,6 +721,7 @@ def run_model(model: str, tier: str, seed: int) -> Dict[str, Any]:
     ctor = model_ctor(model)
     env = eval(ctor, catalog.namespace())  # noqa: S307
     quick = tier == "quick"
+    heavy = bool(opts.get("heavy"))
     keys = list(range(opts.get("kq", 2) if quick else opts.get("kt", 4)))
     D = opts.get("dq", 3) if quick else opts.get("dt", opts.get("dq", 3) + 1)
     actions, ainfo = pick_alphabet(env, keys, threshold=31 if quick else 50)
@@ -733,8 +729,7 @@ def run_model(model: str, tier: str, seed: int) -> Dict[str, Any]:
     if not quick:
         while D > 3 and len(keys) * nA ** D > 400_000:
             D -= 1
-    heavy = bool(opts.get("heavy"))
-    bare = Bare(env, actions)
+    bare = Bare(env, actions, buckets=(16, 16) if heavy else (16, 128))
     # is the generator random over the key window?
     wk = np.stack([np.asarray(jax.random.PRNGKey(k)) for k in range(RANDOM_WINDOW)])
     ws, _ = bare.reset(wk)
@@ -775,8 +770,7 @@ def run_model(model: str, tier: str, seed: int) -> Dict[str, Any]:
         mon = AutoResetMonitor(env, bare, b, ctor, model)
         ex = Explorer(W, model, PID, keys=keys, actions=actions, monitors=[mon], max_depth=D, post_terminal=D + 1,
                       max_states=60_000 if quick else 400_000, max_transitions=600_000 if quick else 4_000_000,
-                      seed=seed, ctor=ctor, eager_max_paths=0 if heavy else (1 if quick else 3),
-                      eager_budget_s=3.0 if quick else 10.0, time_budget_s=70.0 if quick else 600.0)
+                      seed=seed, ctor=ctor, eager_max_paths=0, chunk_rows=(8 if heavy else 32) * nA, time_budget_s=70.0 if quick else 600.0)
         r = ex.run()
         # `depth>D` is the intended bound, not a cap on the enumeration
         bounded_ok = (r["cap"] is None) or str(r["cap"]).startswith("depth>")
@@ -805,7 +799,7 @@ def run_model(model: str, tier: str, seed: int) -> Dict[str, Any]:
         # --- replay under per-call jit / vmap / scan / eager ------------------------------------
         picks = mon.picks
         modes = Modes(env, b)
-        n_modes = 6 if quick else 18
+        n_modes = 3 if heavy else (6 if quick else 18)
         chosen = picks[:n_modes]
         t0 = time.time()
         n_eager = 0
@@ -816,7 +810,7 @@ def run_model(model: str, tier: str, seed: int) -> Dict[str, Any]:
             seeds = [keys[r_] for _, r_, _, _ in g]
             paths = [[np.asarray(actions[a]).tolist() for a in acts] for _, _, _, acts in g]
             eager_ref = None
-            if n_eager == 0 or (time.time() - t0 < budget and not heavy):
+            if (n_eager == 0 and (b or not heavy)) or (time.time() - t0 < budget and not heavy):
                 p0 = paths[0][: (2 if heavy else len(paths[0]))]
                 sigs, traj = check_path(env, b, seeds[0], p0, eager=True)
                 n_eager += 1
@@ -831,7 +825,7 @@ def run_model(model: str, tier: str, seed: int) -> Dict[str, Any]:
                     bump("eager_paths_validated", 1)
                     bump("eager_boundaries_crossed", sum(
                         int(np.asarray(t[1].step_type) == 2) for t in traj[1:]))
-                eager_ref = traj if len(p0) == len(paths[0]) else None
+                eager_ref = traj
             fails = modes.check(seeds, paths, eager_ref)
             bump("mode_replay_paths", len(paths))
             bump("mode_replay_boundaries", sum(nb for _, _, nb, _ in g))
